@@ -9,9 +9,13 @@ from .h_merge import envelope_ok, frame_ok
 from .h_order import OPS, build_message, idx_of, keys, model
 
 
+# vendor payloads use XML namespaces: two elements that differ only in their namespace travel with the payload
+NS_DC, NS_V = '{http://purl.org/dc/elements/1.1/}', '{urn:x-vendor:gfx}'
+
+
 def rich_item(iid, c0, c1, deep=True):
     return E('item', T('itemID', iid), T('itemSlug', c0),
-             E('mosExternalMetadata', T('mosSchema', 's'), E('mosPayload', E('a', E('b', T('c', c1), k=c1), tail=c0))
+             E('mosExternalMetadata', T('mosSchema', 's'), E('mosPayload', E('a', E('b', T('c', c1), T(NS_DC + 'c', c0), T(NS_V + 'c', c1), k=c1), tail=c0))
                if deep else None),
              T('objID', c1), **{'x': c1})
 
@@ -21,6 +25,8 @@ def rich_story(sid, c0, c1, n_items=2):
     for j in range(n_items):
         body.append(rich_item('ci%d' % j, c0, c1))
         body.append(E('p', E('em', text='inline', tail=c1), text=c0))
+    # elements of the roStorySend vocabulary inside an ordinary carried story are content like any other
+    body.append(E('storyItem', T('itemID', 'si'), T('itemSlug', c1)))
     return E('story', T('storyID', sid), T('storySlug', c0), B.timing_block(dur='12'), *body, **{'attr': c1})
 
 
